@@ -252,4 +252,339 @@ theorem kernels_agree_with_source :
     BarterModel.KernelsAgree.volume_weighted_mid_price_agrees_l1,
     BarterModel.KernelsAgree.side_bijection.1, BarterModel.KernelsAgree.side_bijection.2⟩
 
+/-! ### Review round 2 (audit/REVIEW-notes.md, section C15) -/
+
+/-! #### Review C15-1: the reading of "current price" / "newer market data", made explicit -/
+
+/-- long 2 @ 100 (no fee) at t=1, a public trade at 150 (t=2), an increase 2 @ 110 (t=4). -/
+def staleBase : List Ev :=
+  [.fill ⟨1, 0, 1, .buy, 100, 2, 0⟩, .market ⟨0, 2, .trade 150⟩, .fill ⟨2, 0, 4, .buy, 110, 2, 0⟩]
+
+/-- `staleBase` followed by a STALE public trade (price 90, exchange time 1 < 2: the trade register
+keeps 150, data.rs:87-99). -/
+def staleThenStaleTrade : List Ev := staleBase ++ [.market ⟨0, 1, .trade 90⟩]
+
+/-- `staleBase` followed by a PRICE-LESS market item (candle / liquidation / L2 book, exchange time
+5, newer than everything: `process` ignores it, data.rs:107 `_ => {}`). -/
+def staleThenPriceless : List Ev := staleBase ++ [.market ⟨0, 5, .other⟩]
+
+/-- **Review C15-1 (reading adopted by the spec, recorded as a kernel-checked witness).**
+
+READING. "The instrument's current price" is the price the market-data registers hold
+(`InstrumentDataState::price()`, data.rs:73-77; the registers are those of C09:
+latest-exchange-timestamp-wins, data.rs:85-108), and the open position is re-marked on EVERY market
+item of the instrument, including items that do not change a register: the engine calls
+`instrument_state.update_from_market(event)` for every `MarketStreamEvent::Item`
+(barter/src/engine/state/mod.rs:185-188), which runs `self.data.process(event)` and then
+unconditionally — whenever a position is open and `price()` is `Some` —
+`position.update_pnl_unrealised(price)` (barter/src/engine/state/instrument/mod.rs:346-356); there
+is no test whether the item carried a price or was accepted by a register. Consequently, after a
+fill priced NEWER than the registers, the next market item of the instrument — even a stale trade or
+a price-less candle — moves the estimate BACK to the registers' (older) price. This is what the
+first sentence of C15 says ("after every market item the unrealised PnL is est(current price)");
+"until newer market data arrives" in the second sentence is read as "until the next market item for
+the instrument arrives" (arrival order, not exchange time). `SpecI.market` encodes this reading;
+`refreshed` and `never_stale` are theorems about it.
+
+WITNESS (all four histories satisfy `ValidEvs`; instrument 0 of a one-instrument engine):
+* after `staleBase` the position is long 4 @ 105, the trade register holds (t=2, 150), and
+  `pnl_unrealised` = est(110) = (110 − 105)·4 = 20 (mark = fill price 110, source `fill`);
+* one more STALE trade (90 at t=1): the register still holds (2, 150), `price()` = 150, and
+  `pnl_unrealised` = est(150) = (150 − 105)·4 = 180 — a price OLDER (t=2) than the fill (t=4);
+* one more PRICE-LESS item (t=5): same, est(150) = 180;
+in both cases the spec demands exactly that value (mark ⟨150, market⟩), i.e. model and spec agree by
+construction — the point of this theorem is that the reading is visible, not hidden in `SpecI.market`. -/
+theorem stale_item_remarks_at_older_price :
+    ValidEvs staleBase ∧ ValidEvs staleThenStaleTrade ∧ ValidEvs staleThenPriceless ∧
+    -- after the increase: est at the FILL price 110
+    ((EngineState.init 1).run staleBase)[0]?.bind (·.upnl) = some (20 : Rat) ∧
+    (((EngineState.init 1).run staleBase)[0]?.bind (·.position.current)).map
+        (fun p => (p.side, p.priceEntryAverage, p.quantityAbs, estimate p 110, estimate p 150))
+      = some (Side.buy, (105 : Rat), (4 : Rat), (20 : Rat), (180 : Rat)) ∧
+    ((EngineState.init 1).run staleBase)[0]?.map (fun st => (st.data.lastTrade, price st.data))
+      = some (some (2, 150), some 150) ∧
+    ((Spec.init 1).run staleBase)[0]?.bind (·.mark) = some ⟨110, .fill⟩ ∧
+    -- a stale trade (rejected by the register) re-marks at the register's older price 150
+    ((EngineState.init 1).run staleThenStaleTrade)[0]?.map (fun st => (st.data.lastTrade, price st.data))
+      = some (some (2, 150), some 150) ∧
+    ((EngineState.init 1).run staleThenStaleTrade)[0]?.bind (·.upnl) = some (180 : Rat) ∧
+    ((Spec.init 1).run staleThenStaleTrade)[0]?.bind (·.mark) = some ⟨150, .market⟩ ∧
+    ((Spec.init 1).run staleThenStaleTrade)[0]?.bind (·.upnl) = some (180 : Rat) ∧
+    -- a price-less item does the same
+    ((EngineState.init 1).run staleThenPriceless)[0]?.map (fun st => (st.data.lastTrade, price st.data))
+      = some (some (2, 150), some 150) ∧
+    ((EngineState.init 1).run staleThenPriceless)[0]?.bind (·.upnl) = some (180 : Rat) ∧
+    ((Spec.init 1).run staleThenPriceless)[0]?.bind (·.mark) = some ⟨150, .market⟩ ∧
+    ((Spec.init 1).run staleThenPriceless)[0]?.bind (·.upnl) = some (180 : Rat) := by
+  refine ⟨?_, ?_, ?_, ?_, ?_, ?_, ?_, ?_, ?_, ?_, ?_, ?_, ?_, ?_, ?_⟩ <;> decide +kernel
+
+/-- **Review C15-1, general form.** A market item that leaves the registers unchanged
+(`processData st.data ev = st.data`: a stale trade, a stale top of book, any price-less item) still
+re-marks an open position at the price the registers hold: from ANY engine state, if a position `p`
+is open and the registers hold a price `pr`, then after the item the position's `pnl_unrealised` is
+`estimate p pr` — whatever it was before (e.g. the estimate at a newer fill price). No hypothesis
+on how the state was reached. -/
+theorem inert_item_remarks_at_held_price (s : EngineState) (ev : MarketEvent) (st : InstrumentState)
+    (hst : s[ev.instrument]? = some st) (hinert : processData st.data ev = st.data)
+    (p : Position) (hp : st.position.current = some p) (pr : Rat) (hpr : price st.data = some pr) :
+    ∃ st' p', (s.process (.market ev))[ev.instrument]? = some st' ∧ st'.data = st.data ∧
+      st'.position.current = some p' ∧ p' = { p with pnlUnrealised := estimate p pr } := by
+  refine ⟨st.updateFromMarket ev, p.updatePnlUnrealised pr, ?_, ?_, ?_, ?_⟩
+  · simp [EngineState.process, EngineState.updateFromMarket, modifyAt_getElem?, hst]
+  · simp [InstrumentState.updateFromMarket, hinert, hp, hpr]
+  · simp [InstrumentState.updateFromMarket, hinert, hp, hpr]
+  · rw [updatePnlUnrealised_eq]
+
+/-- Price-less items (`OrderBook`, `Candle`, `Liquidation`: data.rs:107) never change the registers:
+the hypothesis `hinert` of `inert_item_remarks_at_held_price` holds for them unconditionally; and a
+public trade that is not strictly newer than the held one is rejected (data.rs:87-92). -/
+theorem inert_items (d : MarketData) (i : Nat) (te : Int) :
+    processData d ⟨i, te, .other⟩ = d ∧
+    ∀ t0 p0 p, d.lastTrade = some (t0, p0) → te ≤ t0 → processData d ⟨i, te, .trade p⟩ = d := by
+  refine ⟨rfl, ?_⟩
+  intro t0 p0 p h hle
+  have : ¬ t0 < te := by omega
+  cases d with
+  | mk l1 lt =>
+    simp only at h
+    subst h
+    simp [processData, MarketData.trade, upd, passes, this]
+
+/-! #### Review C15-3: the totalised divisions, made explicit
+
+`Rat` division is total (`x / 0 = 0`); `Decimal` division panics on a zero divisor
+(rust_decimal `impl Div`: `panic!("Division by zero")`). The model contains exactly two divisions:
+
+1. `volumeWeightedMidPrice x = (bidP·askA + askP·bidA) / (bidA + askA)`
+   (barter-data/src/books/mod.rs:309-312), divisor = total top-of-book amount;
+2. `estimate p pr = … − feesEnter · (quantityAbs / quantityAbsMax)`
+   (`approximate_remaining_exit_fees`, position.rs), divisor = `quantityAbsMax`.
+
+(2) is never zero on reachable states under the existing hypothesis `ValidEvs` (fills have positive
+quantity): `fee_ratio_divisor_pos`. (1) is zero exactly when an `OrderBookL1` item carries amounts
+that sum to zero (e.g. zero on BOTH sides), which `ValidEvs` does not exclude: the theorems above
+(`current_price`, `refreshed`, `never_stale`, `opening_fill_zero`, `after_fill_partial`,
+`kernels_agree_with_source`) are UNCONDITIONAL in this respect, and at such a point they speak of
+the totalised value (price 0), where the code panics (`l1_zero_amounts_witness`). The hypothesis that
+excludes the point is `ValidL1Evs` below; under it the price is the documented quotient
+(`l1_price_is_documented_quotient`, `held_l1_valid`) and `never_stale_valid_l1` restates the main
+theorem on that domain. props/C15.py ASSUMPTIONS states the same domain in words and the harness
+generator rejects zero-sum L1 payloads (harness/src/bin/c15.rs:125). -/
+
+/-- Documented precondition of `volume_weighted_mid_price` that the code does not check: the two
+top-of-book amounts do not sum to zero (`Decimal` division panics otherwise, books/mod.rs:310-311). -/
+def ValidL1 (x : L1) : Prop := x.bidA + x.askA ≠ 0
+
+instance (x : L1) : Decidable (ValidL1 x) := by unfold ValidL1; infer_instance
+
+/-- An event is L1-valid when it is not an `OrderBookL1` item or its payload satisfies `ValidL1`. -/
+def ValidL1Ev : Ev → Prop
+  | .market ⟨_, _, .bookL1 x⟩ => ValidL1 x
+  | _ => True
+
+instance : DecidablePred ValidL1Ev := fun e => by
+  unfold ValidL1Ev; split <;> infer_instance
+
+/-- The `ValidEvs`-style hypothesis review C15-3 found missing: every `OrderBookL1` item of the
+history has amounts that do not sum to zero. -/
+def ValidL1Evs (evs : List Ev) : Prop := ∀ e ∈ evs, ValidL1Ev e
+
+instance (evs : List Ev) : Decidable (ValidL1Evs evs) := by unfold ValidL1Evs; infer_instance
+
+/-- **Review C15-3 (a).** Under `ValidL1 x` the model's price of an L1 payload IS the documented
+quotient, stated without any division: it is the unique rational `q` with
+`q · (bidA + askA) = bidP·askA + askP·bidA` (so the totalisation `x / 0 = 0` plays no role), and it
+equals the weighted form the spec's `currentPrice` uses. Where `ValidL1` fails the equation
+`q · 0 = …` has no solution or every `q` is one: there is no documented value, and the code panics. -/
+theorem l1_price_is_documented_quotient (x : L1) (hx : ValidL1 x) :
+    volumeWeightedMidPrice x * (x.bidA + x.askA) = x.bidP * x.askA + x.askP * x.bidA ∧
+    (∀ q : Rat, q * (x.bidA + x.askA) = x.bidP * x.askA + x.askP * x.bidA →
+      q = volumeWeightedMidPrice x) ∧
+    volumeWeightedMidPrice x =
+      x.bidP * (x.askA / (x.bidA + x.askA)) + x.askP * (x.bidA / (x.bidA + x.askA)) := by
+  unfold ValidL1 at hx
+  have h1 : volumeWeightedMidPrice x * (x.bidA + x.askA) = x.bidP * x.askA + x.askP * x.bidA := by
+    unfold volumeWeightedMidPrice
+    rw [Rat.div_mul_cancel hx]
+  refine ⟨h1, ?_, ?_⟩
+  · intro q hq
+    have : q * (x.bidA + x.askA) = volumeWeightedMidPrice x * (x.bidA + x.askA) := by rw [hq, h1]
+    have h2 := congrArg (· / (x.bidA + x.askA)) this
+    simpa [Rat.mul_div_cancel hx] using h2
+  · unfold volumeWeightedMidPrice
+    grind
+
+/-- **Review C15-3**, the other division. The divisor `quantityAbsMax` of the pro-rata fee term of
+`estimate` (`quantity_abs / quantity_abs_max`, position.rs `approximate_remaining_exit_fees`) is
+positive for every open position of every state reachable under `ValidEvs` (fills have a positive
+quantity), and the ratio lies in (0, 1]: this division is never totalised on the domain of
+`never_stale` / `opening_fill_zero` / `after_fill_partial`. (Without `ValidEvs`, a zero-quantity
+opening fill gives `quantityAbsMax = 0`: the code panics, props/C15.py ASSUMPTIONS.) -/
+theorem fee_ratio_divisor_pos (n : Nat) (evs : List Ev) (hv : ValidEvs evs) (i : Nat)
+    (st : InstrumentState) (hst : ((EngineState.init n).run evs)[i]? = some st)
+    (p : Position) (hp : st.position.current = some p) :
+    0 < p.quantityAbsMax ∧ 0 < p.quantityAbs ∧ p.quantityAbs ≤ p.quantityAbsMax := by
+  obtain ⟨sp, _, hrel⟩ := relAll_get (relAll_run (relAll_init n) evs hv) hst
+  have hw := hrel.wf p hp
+  exact ⟨by have := hw.pos; have := hw.le; grind, hw.pos, hw.le⟩
+
+/-- One step of `held_l1_valid`: an L1-valid event keeps every held top of book L1-valid. -/
+theorem held_l1_valid_step (s : EngineState) (e : Ev) (he : ValidL1Ev e)
+    (h : ∀ (i : Nat) (st : InstrumentState) (x : L1), s[i]? = some st → st.data.l1 = some x → ValidL1 x) :
+    ∀ (i : Nat) (st : InstrumentState) (x : L1), (s.process e)[i]? = some st → st.data.l1 = some x → ValidL1 x := by
+  intro i st x hst hx
+  cases e with
+  | fill t =>
+    simp only [EngineState.process, EngineState.updateFromTrade, modifyAt_getElem?] at hst
+    by_cases hi : i = t.instrument
+    · simp only [hi, ↓reduceIte, Option.map_eq_some_iff] at hst
+      obtain ⟨st0, hs0, rfl⟩ := hst
+      exact h _ st0 x hs0 (by simpa [InstrumentState.updateFromTrade] using hx)
+    · simp only [hi, ↓reduceIte] at hst
+      exact h i st x hst hx
+  | market ev =>
+    simp only [EngineState.process, EngineState.updateFromMarket, modifyAt_getElem?] at hst
+    by_cases hi : i = ev.instrument
+    · simp only [hi, ↓reduceIte, Option.map_eq_some_iff] at hst
+      obtain ⟨st0, hs0, rfl⟩ := hst
+      have hd : (st0.updateFromMarket ev).data = processData st0.data ev := by
+        unfold InstrumentState.updateFromMarket
+        cases st0.position.current <;> simp only
+        split <;> rfl
+      rw [hd] at hx
+      obtain ⟨inst, te, kind⟩ := ev
+      cases kind with
+      | trade pr => exact h _ st0 x hs0 (by simpa [processData, MarketData.trade] using hx)
+      | other => exact h _ st0 x hs0 (by simpa [processData] using hx)
+      | bookL1 y =>
+        simp only [processData, MarketData.bookL1] at hx
+        cases hl : st0.data.l1 with
+        | none =>
+          simp only [hl, Option.some.injEq] at hx
+          subst hx; exact he
+        | some c =>
+          simp only [hl] at hx
+          split at hx
+          · simp only [Option.some.injEq] at hx
+            subst hx; exact he
+          · exact h _ st0 x hs0 hx
+    · simp only [hi, ↓reduceIte] at hst
+      exact h i st x hst hx
+
+/-- **Review C15-3 (b), invariant.** For every history whose `OrderBookL1` items all satisfy
+`ValidL1` (`ValidL1Evs`; nothing is asked of fills or other market items), in the state reached
+from the initial one every held top of book satisfies `ValidL1`: the divisor of the current price is
+non-zero in every such state, for every instrument. -/
+theorem held_l1_valid (n : Nat) (evs : List Ev) (hl : ValidL1Evs evs) (i : Nat)
+    (st : InstrumentState) (hst : ((EngineState.init n).run evs)[i]? = some st)
+    (x : L1) (hx : st.data.l1 = some x) : ValidL1 x := by
+  have H : ∀ (s : EngineState),
+      (∀ (i : Nat) (st : InstrumentState) (x : L1), s[i]? = some st → st.data.l1 = some x → ValidL1 x) →
+      ∀ (i : Nat) (st : InstrumentState) (x : L1), (s.run evs)[i]? = some st → st.data.l1 = some x →
+        ValidL1 x := by
+    clear hst hx
+    induction evs with
+    | nil => intro s h; exact h
+    | cons e evs ih =>
+      intro s h
+      simp only [EngineState.run, List.foldl_cons]
+      exact ih (fun e' he' => hl e' (by simp [he'])) _
+        (held_l1_valid_step s e (hl e (by simp)) h)
+  refine H (EngineState.init n) ?_ i st x hst hx
+  intro i st x h1 h2
+  simp only [EngineState.init, List.getElem?_replicate] at h1
+  split at h1
+  · simp only [Option.some.injEq] at h1
+    subst h1
+    simp [InstrumentState.init, MarketData.init] at h2
+  · cases h1
+
+/-- **Review C15-3 (b), the current price on the valid domain.** Under `ValidL1Evs`, whenever an
+instrument holds a top of book `x`, the engine's `price()` (= the property's current price, by
+`current_price`) is `some q` where `q` is THE solution of
+`q · (bidA + askA) = bidP·askA + askP·bidA` with `bidA + askA ≠ 0` — the documented volume-weighted
+mid, no totalised division involved. -/
+theorem current_price_is_documented_quotient (n : Nat) (evs : List Ev) (hl : ValidL1Evs evs)
+    (i : Nat) (st : InstrumentState) (hst : ((EngineState.init n).run evs)[i]? = some st)
+    (x : L1) (hx : st.data.l1 = some x) :
+    ∃ q, price st.data = some q ∧ currentPrice st.data = some q ∧ x.bidA + x.askA ≠ 0 ∧
+      q * (x.bidA + x.askA) = x.bidP * x.askA + x.askP * x.bidA ∧
+      ∀ q' : Rat, q' * (x.bidA + x.askA) = x.bidP * x.askA + x.askP * x.bidA → q' = q := by
+  have hv := held_l1_valid n evs hl i st hst x hx
+  obtain ⟨h1, h2, _⟩ := l1_price_is_documented_quotient x hv
+  refine ⟨volumeWeightedMidPrice x, ?_, ?_, hv, h1, h2⟩
+  · simp [price, hx]
+  · rw [currentPrice_eq_price]; simp [price, hx]
+
+/-- **Review C15-3 (b): `never_stale` restated on the domain where no division is totalised.**
+Under `ValidEvs` (positive fill quantities) AND `ValidL1Evs` (L1 amounts do not sum to zero), for
+every history, instrument and reached instrument state: the conclusion of `never_stale` holds (the
+existing theorem is unconditional in `ValidL1Evs`; nothing is weakened) and, in addition, every
+division behind the two sides of `st.upnl = sp.upnl` is a genuine one: a held top of book has a
+non-zero total amount (so the mark taken from a market item is the documented quotient,
+`current_price_is_documented_quotient`) and an open position has `0 < quantityAbsMax`. Hence on this
+domain the equality is about the documented values, not about `x / 0 = 0`. -/
+theorem never_stale_valid_l1 (n : Nat) (evs : List Ev) (hv : ValidEvs evs) (hl : ValidL1Evs evs)
+    (i : Nat) (st : InstrumentState) (hst : ((EngineState.init n).run evs)[i]? = some st) :
+    (∃ sp, ((Spec.init n).run evs)[i]? = some sp ∧ sp.data = st.data ∧
+      ((∀ m p, sp.mark = some m → m.src = .openingFill → st.position.current = some p →
+          p.feesEnter = 0) →
+        st.upnl = sp.upnl)) ∧
+    (∀ x, st.data.l1 = some x → x.bidA + x.askA ≠ 0) ∧
+    (∀ p, st.position.current = some p → 0 < p.quantityAbsMax) := by
+  refine ⟨?_, fun x hx => held_l1_valid n evs hl i st hst x hx,
+    fun p hp => (fee_ratio_divisor_pos n evs hv i st hst p hp).1⟩
+  obtain ⟨sp, hsp, hrel⟩ := relAll_get (relAll_run (relAll_init n) evs hv) hst
+  obtain ⟨sp', hsp', hns⟩ := never_stale n evs hv i st hst
+  rw [hsp] at hsp'
+  cases hsp'
+  exact ⟨sp, hsp, hrel.data.symm, hns⟩
+
+/-- long 2 @ 100 (no fee), then an `OrderBookL1` item with ZERO amounts on both sides
+(bid 99 × 0, ask 101 × 0). -/
+def zeroL1 : List Ev :=
+  [.fill ⟨1, 0, 1, .buy, 100, 2, 0⟩, .market ⟨0, 3, .bookL1 ⟨3, 99, 0, 101, 0⟩⟩]
+
+/-- **Review C15-3 (c): what the model says at the excluded point.** The history `zeroL1` satisfies
+`ValidEvs` (so it is inside the range of `refreshed`, `never_stale`, …) but not `ValidL1Evs`. In the
+MODEL the zero-amount top of book is stored, its volume-weighted mid is `(99·0 + 101·0) / (0 + 0)
+= 0 / 0 = 0` (`Rat` totalisation), `price()` = `some 0`, and the open long 2 @ 100 is re-marked to
+`estimate p 0 = (0 − 100)·2 = −200`; the spec (same formula) demands the same −200, so the
+unconditional theorems hold there — vacuously with respect to the code, because the CODE PANICS at
+this point: `volume_weighted_mid_price` (barter-data/src/books/mod.rs:309-312) divides two
+`Decimal`s with divisor `best_bid.amount + best_ask.amount = 0`, and `Decimal`'s `Div` panics with
+"Division by zero"; the call chain is `InstrumentState::update_from_market`
+(barter/src/engine/state/instrument/mod.rs:352 `self.data.price()`) →
+`DefaultInstrumentMarketData::price` (barter/src/engine/state/instrument/data.rs:73-77) →
+`OrderBookL1::volume_weighed_mid_price` (barter-data/src/subscription/book.rs:57-62). The same
+happens for amounts of opposite sign that cancel (1 and −1). The point is excluded by `ValidL1Evs`
+(props/C15.py ASSUMPTIONS; the harness never generates it), under which
+`current_price_is_documented_quotient` / `never_stale_valid_l1` apply. -/
+theorem l1_zero_amounts_witness :
+    ValidEvs zeroL1 ∧ ¬ ValidL1Evs zeroL1 ∧ ¬ ValidL1 ⟨3, 99, 0, 101, 0⟩ ∧
+    volumeWeightedMidPrice ⟨3, 99, 0, 101, 0⟩ = 0 ∧
+    volumeWeightedMidPrice ⟨3, 99, 1, 101, -1⟩ = 0 ∧
+    ((EngineState.init 1).run zeroL1)[0]?.map (fun st => price st.data) = some (some 0) ∧
+    ((EngineState.init 1).run zeroL1)[0]?.bind (·.upnl) = some (-200 : Rat) ∧
+    ((Spec.init 1).run zeroL1)[0]?.bind (·.mark) = some ⟨0, .market⟩ ∧
+    ((Spec.init 1).run zeroL1)[0]?.bind (·.upnl) = some (-200 : Rat) := by
+  refine ⟨?_, ?_, ?_, ?_, ?_, ?_, ?_, ?_, ?_⟩ <;> decide +kernel
+
+/-! ### Non-vacuity of the new hypotheses -/
+
+/-- `sample` (fills, trades, a two-sided book with amounts 1 and 3, a stale trade) satisfies both
+validity hypotheses of `never_stale_valid_l1`, and it does hold a top of book at the end. -/
+example : ValidEvs sample ∧ ValidL1Evs sample ∧
+    (((EngineState.init 2).run sample)[0]?.bind (·.data.l1)) = some ⟨3, 99, 1, 101, 3⟩ := by
+  refine ⟨?_, ?_, ?_⟩ <;> decide +kernel
+/-- `ValidL1` holds of the book in `sample`, whose documented quotient is (99·3 + 101·1)/4 = 199/2. -/
+example : ValidL1 ⟨3, 99, 1, 101, 3⟩ ∧ volumeWeightedMidPrice ⟨3, 99, 1, 101, 3⟩ = 199/2 := by
+  refine ⟨?_, ?_⟩ <;> decide +kernel
+/-- the hypotheses of `inert_item_remarks_at_held_price` are met by the state after `staleBase`
+and the price-less item of `staleThenPriceless` (open long, registers hold 150, item inert). -/
+example : ∃ st p, ((EngineState.init 1).run staleBase)[0]? = some st ∧
+    processData st.data ⟨0, 5, .other⟩ = st.data ∧ st.position.current = some p ∧
+    price st.data = some 150 ∧ p.pnlUnrealised = 20 ∧ estimate p 150 = 180 :=
+  ⟨_, _, rfl, rfl, rfl, by decide +kernel, by decide +kernel, by decide +kernel⟩
+
 end BarterModel.Props.C15
